@@ -19,7 +19,8 @@ structure MonSt (β : Type) where
   envOk : Bool := true       -- the environment has been conformant so far
   shapeOk : Bool := true     -- the event sequence is well bracketed
   panicked : Bool := false
-  cross : Nat := 0           -- environment calls legal only as cross-sink calls (EnvX.lean)
+  cross : Nat := 0           -- environment calls legal only in the cross-peer environment (EnvX.lean)
+  wide : Nat := 0            -- … of which not even cross-sink calls: such histories are compared, not judged
 
 def opHeight {β} : List (CFrame β) → Nat
   | [] => 0
@@ -36,7 +37,8 @@ def monStep {α β} (sh : Shape) (m : MonSt β) (e : Ev α β) : MonSt β :=
   match e with
   | .inp i => match ctxOfC m.cs with
     | some c => if legalInX sh m.g.ph c i then
-        { m with g := m.g.onIn (opHeight m.cs) i, cs := .op :: m.cs, cross := m.cross + (if isCross sh m.g.ph c i then 1 else 0) }
+        { m with g := m.g.onIn (opHeight m.cs) i, cs := .op :: m.cs, cross := m.cross + (if isCross sh m.g.ph c i then 1 else 0),
+                 wide := m.wide + (if isWide sh m.g.ph c i then 1 else 0) }
       else { m with envOk := false }
     | none => { m with shapeOk := false }
   | .out o => match m.cs with
